@@ -252,7 +252,9 @@ def worlds(ctx):
                         if ctx.quick and (foreign or reward) and (korder or order == 'desc' or (foreign and reward)
                                                                   or len(dist[0]) + len(dist[1]) > 2):
                             continue
-                        out.append((dist, foreign, reward, order, korder, 2 if ctx.quick else 3, 1 if ctx.quick else 2))
+                        if not ctx.quick and (foreign or reward) and len(dist[0]) + len(dist[1]) > 3:
+                            continue
+                        out.append((dist, foreign, reward, order, korder, 2 if ctx.quick else 3, 1))
     return out
 
 
